@@ -81,17 +81,10 @@ pub fn ops<T: Sym, N: ArrayLength, const R: usize>() {
 /// tracked elements with a heap payload: a double drop is a double free, a lost element is a leak
 pub fn ops_payload<T, N: ArrayLength, const R: usize>() {
     let n = N::USIZE;
-    let op = any_upto(4);
+    let op = any_upto(3);
     kani_cover!(op == 3);
-    kani_cover!(op == 4);
     match op {
         0 => { let b = Box::<GenericArray<TrBox, N>>::generate(TrBox::new); let v = b.into_vec(); drop(v); }
-        4 => {
-            // repeat form of box_arr! with a heap-owning operand: the operand and every clone of it own a block (N = 0: the operand alone)
-            let b: Box<GenericArray<Box<u8>, N>> = generic_array::box_arr![Box::new(any_u8()); N];
-            assert!(b.len() == n);
-            drop(b);
-        }
         1 => {
             let c = any_upto(n + 1);
             let r = GenericArray::<TrBox, N>::try_boxed_from_iter((0..c).map(TrBox::new));
@@ -113,6 +106,18 @@ pub fn ops_payload<T, N: ArrayLength, const R: usize>() {
             drop(m);
         }
     }
+}
+
+/// repeat forms of box_arr! with a heap-owning operand: the operand and every clone of it own a block (length 0: the operand alone);
+/// concrete lengths only (the macro's type-level form is not promised to accept a generic parameter of the enclosing function)
+pub fn box_arr_payload<T, N: ArrayLength, const R: usize>() {
+    match any_upto(3) {
+        0 => { let b: Box<GenericArray<Box<u8>, U0>> = generic_array::box_arr![Box::new(any_u8()); U0]; assert!(b.len() == 0); }
+        1 => { let b: Box<GenericArray<Box<u8>, U3>> = generic_array::box_arr![Box::new(any_u8()); U3]; assert!(b.len() == 3 && *b[2] == *b[0]); }
+        2 => { let b = generic_array::box_arr![Box::new(any_u8()); 0]; assert!(b.len() == 0); }
+        _ => { let b = generic_array::box_arr![Box::new(any_u8()); 2]; assert!(b.len() == 2 && *b[1] == *b[0]); }
+    }
+    kani_cover!(true);
 }
 
 // ---- allocation failure: `alloc::alloc::alloc` may return null -------------------------------------
@@ -273,6 +278,7 @@ macro_rules! c16_fail_lattice {
 pub mod q {
     c16_ops_lattice! { u64_n0: u64, U0, 5; u64_n1: u64, U1, 6; u64_n3: u64, U3, 8; unit_n0: (), U0, 5; unit_n3: (), U3, 8; }
     c16_lattice! { ops_payload; n0: (), U0, 5; n1: (), U1, 6; n3: (), U3, 8; }
+    c16_lattice! { box_arr_payload; any: (), U0, 8; }
     c16_fail_lattice! { u64_n0: u64, U0, 5; u64_n1: u64, U1, 6; u64_n3: u64, U3, 8; unit_n3: (), U3, 8; }
     c16_align_lattice! { n1: U1, 8; n3: U3, 10; }
 }
